@@ -208,8 +208,12 @@ def resplit(rng, read, contig):
 def gen_plan(rng, tier, i, seed):
     cfg = TIERS[tier]
     kinds = ["snp", "snp", "mnp", "mnp"] if rng.random() < 0.7 else ["snp", "mnp", "del", "ins"]
+    extra = {}
+    if rng.random() < 0.3:
+        # a multi-nucleotide substitution whose last base change is a catalogued substitution of its own
+        extra = {"close_pair": "mnp_inner_snp", "close_func": True}
     world = WL.one_gene_world(rng, small=True, kinds=kinds, n_variants=rng.choice([5, 7]), lfusion=False,
-                              rfusion=False)
+                              rfusion=False, **extra)
     reads = gen_reads(rng, world, rng.randint(*cfg["nreads"]))
     if any(v["kind"] in ("ins", "del") for v in world["genes"][0]["variants"].values()):
         # indelpost (third-party realigner) cannot digest records without base qualities
